@@ -20,6 +20,7 @@
 #include <memory>
 #include <fcntl.h>
 #include <cerrno>
+#include <sys/prctl.h>
 #include <execinfo.h>
 
 using namespace vf;
@@ -429,13 +430,32 @@ struct Abandoned : public PPL::Throwable {
   }
 };
 static Abandoned ABANDONED;
-static void on_prof(int) { PPL::abandon_expensive_computations = &ABANDONED; }
+// The timer keeps ticking after the request: a computation that does not reach maybe_abandon() within HARD_S more
+// seconds of CPU ends the worker with exit status 97; Pool re-runs that very step alone, sees the same exit, and the
+// parent reports a non-cooperative hang of that step.
+static const double TICK_S = 0.25, HARD_S = 3.0;
+static volatile int TICKS_AFTER_REQUEST = 0;
+static void on_prof(int) {
+  if (PPL::abandon_expensive_computations == 0) { PPL::abandon_expensive_computations = &ABANDONED; TICKS_AFTER_REQUEST = 0; return; }
+  if (++TICKS_AFTER_REQUEST * TICK_S >= HARD_S) _exit(97);
+}
+// Step-wide watchdog on a second timer (user CPU time) for the library code executed outside guarded(): copies, OK(),
+// ascii_dump, the public node interface used by the spanning code.
+static void on_vtalrm(int) { _exit(97); }
+static void watchdog(double cpu_s) {
+  static bool installed = false;
+  if (!installed) { struct sigaction sa; memset(&sa, 0, sizeof sa); sa.sa_handler = on_vtalrm; sigaction(SIGVTALRM, &sa, 0); installed = true; }
+  struct itimerval tv; memset(&tv, 0, sizeof tv);
+  tv.it_value.tv_sec = (long)cpu_s; tv.it_value.tv_usec = (long)((cpu_s - (long)cpu_s) * 1e6);
+  setitimer(ITIMER_VIRTUAL, &tv, 0);
+}
 // 0 if f() returned, SIGPROF if abandoned after cpu_s seconds of CPU, 1077 on memory exhaustion
 static int guarded(const std::function<void()>& f, double cpu_s) {
   static bool installed = false;
   if (!installed) { struct sigaction sa; memset(&sa, 0, sizeof sa); sa.sa_handler = on_prof; sigaction(SIGPROF, &sa, 0); installed = true; }
   struct itimerval tv, off; memset(&tv, 0, sizeof tv); memset(&off, 0, sizeof off);
   tv.it_value.tv_sec = (long)cpu_s; tv.it_value.tv_usec = (long)((cpu_s - (long)cpu_s) * 1e6);
+  tv.it_interval.tv_sec = 0; tv.it_interval.tv_usec = (long)(TICK_S * 1e6);
   PPL::abandon_expensive_computations = 0;
   setitimer(ITIMER_PROF, &tv, 0);
   int rc = 0;
@@ -741,6 +761,7 @@ static Data fresh_data(const FreshCase& fc, int strat) {
   return d;
 }
 static void run_fresh_item(long long item, long long sub_start) {
+  prctl(PR_SET_PDEATHSIG, SIGKILL); if (getppid() == 1) _exit(0);      // a worker never outlives the harness process
   long long only = pool().only_sub;
   size_t lo = (size_t)item * FRESH_BATCH, hi = std::min(FRESH.size(), lo + FRESH_BATCH);
   long long sub = 0;
@@ -754,6 +775,7 @@ static void run_fresh_item(long long item, long long sub_start) {
     Data d = fresh_data(FRESH[ci], strat);
     if (pool().worker_id >= 0) { CrashInfo& c = CRASH[pool().worker_id]; c.mode = 0; std::string dj = data_json(d); strncpy(c.desc, dj.c_str(), sizeof c.desc - 1); c.desc[sizeof c.desc - 1] = 0; }
     pool().step(my);
+    watchdog(20.0);
     std::unique_ptr<PIP> p = build_fresh(d, ctor != 0);
     int st = 0;
     Reporter rp; rp.live = true;
@@ -889,6 +911,7 @@ static std::string incremental_trigger(const PIP& p) {
   return "";
 }
 static void run_incr_item(long long item, long long sub_start) {
+  prctl(PR_SET_PDEATHSIG, SIGKILL); if (getppid() == 1) _exit(0);
   const Item& it = ITEMS[item];
   RECS.clear();
   long long only = pool().only_sub;
@@ -929,6 +952,7 @@ static void run_incr_item(long long item, long long sub_start) {
           }
           pool().step(my);
         }
+        watchdog(20.0);
         std::unique_ptr<PIP> c(new PIP(*src.p));
         Data d1 = src.d;
         Outcome out;
@@ -1201,7 +1225,7 @@ int main(int argc, char** argv) {
     if (!confirmed) return;
     if (BAD->n < 8192) { BAD->item[BAD->n] = item; BAD->sub[BAD->n] = sub; BAD->n = BAD->n + 1; }
     const CrashInfo& ci = CRASH[item % ARGS.jobs];
-    std::string clause = sig == SIGALRM ? "hang" : std::string("crash:") + signame(sig);
+    std::string clause = (sig == SIGALRM || sig == 1097) ? "hang" : std::string("crash:") + signame(sig);     // 1097: the worker ended itself in a loop without cancellation points
     if (ci.mode == 0) {
       std::string desc(ci.desc);
       std::string trig = desc.find("PIVOT_ROW_STRATEGY_MAX_COLUMN") != std::string::npos ? "pivot_row_strategy_max_column" : "none";
@@ -1219,7 +1243,7 @@ int main(int argc, char** argv) {
   if (!ARGS.opt("--single-item").empty()) { fn(atoll(ARGS.opt("--single-item").c_str()), 0); fprintf(stderr, "states=%lld trans=%lld solves=%lld spans=%lld viol=%lld\n", counter(CNT_STATES), counter(CNT_TRANS), counter(CNT_SOLVES), counter(CNT_SPANS), counter(CNT_VIOL)); return 0; }
   GUARD_S = atof(ARGS.opt("--guard-s", "0.05").c_str()); CONFIRM_S = atof(ARGS.opt("--confirm-s", "1.0").c_str());
   violcap().cap = atoi(ARGS.opt("--cap", "5").c_str());
-  int step_timeout = atoi(ARGS.opt("--step-timeout", "90").c_str());   // wall clock, last resort only: divergence is caught by the CPU-time guards
+  int step_timeout = atoi(ARGS.opt("--step-timeout", "60").c_str());   // wall clock, last resort only: divergence is caught by the CPU-time guards
   pool().run(nitems, ARGS.jobs, fn, cf, ARGS, step_timeout);
   bool complete = counter(CNT_SKIPPED) == 0 && counter(CNT_REFCRASH) == 0;
   std::vector<std::string> samples;
